@@ -312,8 +312,8 @@ func emitAnalyze(c *Ctx, bud *budget, tps string, depth int, precise bool) {
 
 func genC05serve(c *Ctx) {
 	r := c.R
-	bud := newBudget(c, 2400000, 160000000)
-	n := c.Scale(160, 60000)
+	bud := newBudget(c, 1400000, 160000000)
+	n := c.Scale(130, 60000)
 	for k := 0; k < n; k++ {
 		c.Emit(fmt.Sprintf("case C05serve-%d-%d", c.Shard, k))
 		size := 3 + r.Intn(3)
@@ -378,7 +378,7 @@ func genC05serve(c *Ctx) {
 		}
 	}
 	// threat positions on purpose: the position before a winning move, with the turn handed to the other side
-	m := c.Scale(160, 30000)
+	m := c.Scale(120, 30000)
 	tsize := 3
 	for k := 0; k < m; k++ {
 		if k%6 == 0 {
